@@ -23,7 +23,8 @@ THEOREM_BACKED = ('integer half: intvec_coords_in_square(_q), floatvec_coords_in
                   "float_angle_bound_q2, float_zero_input; source_canonicalize_is_model / source_isInDiamond_is_model' / "
                   "source_invertDiamond_is_model' / source_octaDecode_is_model' (CanonicalizeOctahedralCoords, IsInDiamond,"
                   " InvertDiamond and the canonicalized decoding transform, translated from clang's AST on every run, are "
-                  'the model functions)')
+                  'the model functions); also source_intVecToCoords_is_model, source_canonicalizeIntVec_is_model, '
+                  'source_intSqrt_is_model (IntSqrt with both loops: the bound of the translated loop is never reached)')
 CORRESPONDENCE_ONLY = ('that the compiled float arithmetic obeys the rounding models of the float theorems '
                        '(float_decoded_unit_length, float_angle_bound, float_angle_bound_q2, float_zero_input) is assumed; the '
                        'allowances those theorems give for binary32/binary64 (10u on the length, 144u + 120uE on the angle, '
